@@ -58,18 +58,25 @@ def plan(tier, seed):
                 dict(size=3, win=(seed, 30)),
                 dict(size=2, marks=True, win=(seed, 6)),
                 dict(size=2, ignore_case=True, win=(seed, 4)),
-                dict(size=2, long=True, win=(seed, 2))]
+                dict(size=2, long=True, win=(seed, 2)),
+                dict(kw=True)]
     return [dict(size=1), dict(size=2), dict(size=3),
             dict(size=4, win=(0, 200)),
             dict(size=2, marks=True), dict(size=3, marks=True, win=(0, 40)),
             dict(size=2, ignore_case=True), dict(size=3, ignore_case=True,
                                                  win=(0, 10)),
-            dict(size=2, long=True), dict(size=3, long=True, win=(0, 10))]
+            dict(size=2, long=True), dict(size=3, long=True, win=(0, 10)),
+            dict(kw=True)]
 
 
 def units(tier, seed):
     out = []
     for row in plan(tier, seed):
+        if row.get("kw"):
+            n = len(kw_grammars())
+            out += [dict(kw=True, idx=list(range(i, min(i + 40, n))))
+                    for i in range(0, n, 40)]
+            continue
         use_pool(row.get("long", False))
         n = len(term_sets(row["size"], row.get("marks", False)))
         win = row.get("win")
@@ -150,7 +157,84 @@ def matcher(kind, text, ic):
     return m
 
 
+# KEYWORD family: keyword terminals (strings that match the KEYWORD rule
+# completely become word-delimited regexes) of one priority, expected in the
+# same state, some a word-boundary-delimited prefix of another, declared under
+# names of different lengths: the longest matching keyword is the token.
+KW_POOL = ["a", "a-a", "a-b", "a-a-a", "ab", "b"]
+KW_INPUTS = KW_POOL + ["", "a-", "a-c", "aa", "a-a-b", "a-ab", "b-a", "a-a-",
+                       "a-a-a-a", "ab-a", "c"]
+KW_NAMELEN = (1, 4, 8)
+
+
+def kw_grammars():
+    out = []
+    for n in (1, 2, 3):
+        for sub in itertools.combinations(range(len(KW_POOL)), n):
+            for lens in itertools.permutations(KW_NAMELEN, n):
+                out.append((sub, lens))
+    return out
+
+
+def run_kw_unit(u):
+    mon = Monitor()
+    judge = Judge(PROP, KNOWN)
+    st = collections.Counter()
+    allg = kw_grammars()
+    samples = []
+    cfg = "keywords"
+    for gi in u["idx"]:
+        sub, lens = allg[gi]
+        names = ["T" + "x" * (ln - 1) + str(i) for i, ln in enumerate(lens)]
+        text = "S: " + " | ".join(names) + ";\nterminals\n" + "".join(
+            f"{nm}: '{KW_POOL[k]}';\n" for nm, k in zip(names, sub)) + \
+            "KEYWORD: /\\w+(-\\w+)*/;\n"
+        try:
+            lr = build("lr", grammar_from_string(text), mon, tag=(gi, "kw"),
+                       build_tree=True, consume_input=False, ws="")
+        except (Exception, BudgetExceeded) as e:      # noqa: BLE001
+            judge.deviation(None, cfg, text, "", "construction failed",
+                            {"type": type(e).__name__, "m": str(e)[:100]},
+                            {"grammar": text})
+            continue
+        st["grammars"] += 1
+        for w in KW_INPUTS:
+            cands = [(nm, KW_POOL[k]) for nm, k in zip(names, sub)
+                     if re.match(r"\b" + re.escape(KW_POOL[k]) + r"\b", w)]
+            want = ("token", max(cands, key=lambda c: len(c[1]))) \
+                if cands else ("none",)
+            case = {"grammar": text, "parser": "lr", "input": w,
+                    "options": {"consume_input": False, "ws": "",
+                                "build_tree": True}}
+            o = parse(lr, w, mon)
+            st["evaluations"] += 1
+            if len(cands) >= 2:
+                st["nontrivial"] += 1
+            if o.kind == "ok":
+                leaves = [n for n, _ in tree_nodes(o.value) if n.is_term()]
+                got = ("token", (leaves[0].symbol.name, leaves[0].value)) \
+                    if leaves else ("none",)
+            elif o.kind == "syntax":
+                got = ("none",)
+            else:
+                got = ("other", o.brief())
+            if got != want:
+                judge.deviation("SCANNER-ORDER", cfg, text, w,
+                                "among keyword terminals of one priority the "
+                                "longest match is not the token",
+                                {"got": _j(got), "want": _j(want)}, case)
+        if not samples:
+            samples.append({"grammar": text, "inputs": KW_INPUTS})
+    r = judge.result()
+    r.update(st)
+    r.update(states=len(mon.states), transitions=mon.transitions,
+             traces=mon.traces, samples=samples)
+    return r
+
+
 def run_unit(u):
+    if u.get("kw"):
+        return run_kw_unit(u)
     mon = Monitor()
     judge = Judge(PROP, KNOWN)
     st = collections.Counter()
@@ -325,7 +409,11 @@ def evidence(total, tier, seed, complete):
                 "selector x every input <= 4 over {a,b} (ignore_case: {a,A,b} "
                 "<= 3); LR token choice against the documented rule list on "
                 "the full candidate set; GLR forks without lexical "
-                "disambiguation; non-trivial = >= 2 candidates match",
+                "disambiguation; non-trivial = >= 2 candidates match; "
+                "KEYWORD family: every set of <= 3 keyword terminals from "
+                "{a, a-a, a-b, a-a-a, ab, b} (KEYWORD: /\\w+(-\\w+)*/) x every "
+                "assignment of rule-name lengths {1,4,8} x 17 inputs, LR token "
+                "= longest word-delimited match",
         "samples": total.get("samples", [])[:4],
         "exhaustive": bool(complete),
         "domain": [{k: str(v) for k, v in row.items()}
